@@ -105,6 +105,11 @@ impl Shadow {
         self.ndots[a as usize] += 1;
         (a, self.ndots[a as usize])
     }
+    /// the actor's next dot after skipping `jump` counters (fast-forward)
+    pub fn take_dot_j(&mut self, a: A, jump: u64) -> DotT {
+        self.ndots[a as usize] += 1 + jump;
+        (a, self.ndots[a as usize])
+    }
 }
 
 /// observation record of one state, taken through every public read entry point
@@ -141,10 +146,12 @@ pub struct Gen<Op> {
     pub rm_ctxs: Vec<Clk>,
     /// the dot the op itself reports through its public accessor (List ops)
     pub op_dot: Option<DotT>,
+    /// hand-built fast-forward op (skips counters: a gap by construction, also at its origin)
+    pub jumped: bool,
 }
 impl<Op> Gen<Op> {
     pub fn new(op: Op, desc: String) -> Self {
-        Gen { op, facts: vec![], desc, want_dot: None, derived: None, rf_vals: vec![], expect_seq: None, rm_ctxs: vec![], op_dot: None }
+        Gen { op, facts: vec![], desc, want_dot: None, derived: None, rf_vals: vec![], expect_seq: None, rm_ctxs: vec![], op_dot: None, jumped: false }
     }
 }
 
@@ -168,10 +175,14 @@ pub struct Cmd {
     /// nested command for `update`
     #[serde(default)]
     pub sub: Option<Box<Cmd>>,
+    /// fast-forward: the op carries the author's dot `jump` counters further on than its next one, as if the author
+    /// had meanwhile issued `jump` ops whose effects were all removed again (add/remove cycles on a scratch element)
+    #[serde(default)]
+    pub jump: u64,
 }
 impl Cmd {
     pub fn new(k: &str, a: Vec<u64>) -> Cmd {
-        Cmd { k: k.to_string(), a, src: String::new(), stale: false, sub: None }
+        Cmd { k: k.to_string(), a, src: String::new(), stale: false, sub: None, jump: 0 }
     }
     pub fn src(mut self, s: &str) -> Cmd {
         self.src = s.to_string();
@@ -183,6 +194,10 @@ impl Cmd {
     }
     pub fn sub(mut self, c: Cmd) -> Cmd {
         self.sub = Some(Box::new(c));
+        self
+    }
+    pub fn jump(mut self, j: u64) -> Cmd {
+        self.jump = j;
         self
     }
     pub fn arg(&self, i: usize) -> u64 {
